@@ -24,6 +24,7 @@ RULE = ("lattice: n x objective {sepquad, coupquad, recip, linear} x constraint 
         "is non-trivial if it has >= 3 iterations and starts farther than 1e-3 (normalised) from the reference "
         "optimum; distinct by the full descriptor")
 RULE += " Extended in seeding rounds 6-7:  uniformly small physical scale with the default tolx, lower bounds exactly zero with starts on them, option arrays unchanged by the run; KF-C10-1 inputs listed for the complete thorough lattice (no time budget)."
+RULE += " Round 8: the admissible interval of every sub-problem against the method's formula; objective-change tolerance with an objective that vanishes at the start."
 ASSUMPTIONS = [
     "value tables are fixed 'generic' numbers (fractional parts of scaled square roots of primes); boxes have lo > 0",
     "reference optimum = SLSQP start + active-set Newton polish, trusted only after the KKT conditions of the "
